@@ -1,6 +1,6 @@
 (* C10 model: pgmpy/estimators/StructureScore.py (K2, BDeu, BDs, BIC, AIC local scores, score(),
    structure priors), pgmpy/estimators/base.py state_counts(reindex=False), pgmpy/estimators/
-   ScoreCache.py (LRU cache), as coded (after fix 74ee6ee for K2).  Executable definitions only.
+   ScoreCache.py (LRU cache), as coded (after fixes 74ee6ee for K2 and 371c84a for BDeu/BDs).  Executable definitions only.
    A data frame is a list of rows of state indices, column i has [nth i cards] declared states.
    Scores are formal sums (Base/Formal.v): lgamma and log stay uninterpreted. *)
 From Coq Require Import List ZArith QArith Qcanon Bool Arith Lia.
@@ -65,8 +65,10 @@ Section Scores.
     let r := Qn (card x) in
     let q := Qn (qtot ps) in
     let qo := Qn (length C) in
+    (* np.sum(log_gamma_counts) + gamma_counts_adj,  gamma_counts_adj = (counts_size - counts.size) * gammaln(beta)
+       (after fix 371c84a: also covers the dropped rows of unobserved states of the variable) *)
     (fsumof C (fun j => fsumof S (fun k => fatom 1 LG (Qn (N x ps j k) + beta)))
-       ++ fatom ((q - qo) * r) LG beta)
+       ++ fatom (q * r - qo * Qn (length S)) LG beta)
     ++ fneg (fsumof C (fun j => fatom 1 LG (Qn (colsum S x ps j) + alpha)) ++ fatom (q - qo) LG alpha)
     ++ fatom lead LG alpha
     ++ fneg (fatom (q * r) LG beta).
